@@ -40,6 +40,7 @@ func zzRunnerLocks(prop string) {
 	boxes := &zzSandboxes{boxes: map[string]pipservices.Sandbox{}}
 	names := []string{"t0", "t1"}
 	maps := make([]commservices.LockMap, 2)
+	t0Fails := nd.Bool("first-body-fails")
 	for i := range names {
 		maps[i] = commservices.LockMap{}
 		for _, res := range []string{"q", "r"} {
@@ -47,7 +48,9 @@ func zzRunnerLocks(prop string) {
 				maps[i][res] = nd.Bool("rw-" + res)
 			}
 		}
-		boxes.boxes["sb"+names[i]] = &zzSandbox{id: names[i], trace: trace}
+		// the first task's body may fail (the second one, which waits for it,
+		// is then never executed)
+		boxes.boxes["sb"+names[i]] = &zzSandbox{id: names[i], trace: trace, fail: i == 0 && t0Fails}
 	}
 	unit := tasks.NewUnit(tasks.UnitDeps{NamespacesUnit: namespaces.NewUnit()})
 	r := NewRunner(Deps{SandboxesManager: boxes, TasksUnit: unit, SharedMutex: sm})
@@ -80,9 +83,15 @@ func zzRunnerLocks(prop string) {
 	}()
 	mgr, err := unit.FromScope(scp)
 	nd.Assert(err == nil, prop+"/runner-manager")
-	nd.Assert(mgr.Wait() == nil, prop+"/runner-all-tasks-finish")
+	nd.Assert((mgr.Wait() != nil) == t0Fails, prop+"/runner-all-tasks-finish")
 	wg.Wait()
 	b0, e0, b1 := trace.index("bt0"), trace.index("et0"), trace.index("bt1")
-	nd.Assert(b0 >= 0 && e0 > b0 && b1 > e0, prop+"/runner-both-bodies-ran-in-wait-order")
+	if t0Fails {
+		nd.Assert(b0 >= 0 && e0 > b0 && b1 < 0, prop+"/runner-dependant-of-failed-task-not-run")
+	} else {
+		nd.Assert(b0 >= 0 && e0 > b0 && b1 > e0, prop+"/runner-both-bodies-ran-in-wait-order")
+	}
+	// whatever happened, every resource is free again afterwards
+	sm.Lock(commservices.LockMap{"q": commservices.LockRW, "r": commservices.LockRW}).Unlock()
 	nd.Reach(prop+"/runner-end")
 }
